@@ -78,6 +78,8 @@ class PStream(PSort):
         data = SeqV(Const(name + '.data', S), 'bytes')
         pos = Int(name + '.pos')
         ex.assume(And(pos >= 0, pos <= Length(data.z)))
+        from pyvc.core import bytes_axiom
+        ex.assume(bytes_axiom(data.z, name))
         methods = {'read': _read, 'seek': _seek, 'tell': _tell}
         methods.update(self.extra)
         return Obj('Stream', {'data': data, 'pos': pos, '__mode__': self.mode, 'eof_signalled': z3.BoolVal(False),
